@@ -877,7 +877,7 @@ def countAligned {α} (count : Option α) (ba : Bool) : Bool := ba ∧ count.isS
 def setRange (P : PosSpec) (n : Nat) : Bool :=
   match P with
   | .range a b c =>
-    c ≠ 0 ∧ (match (Py.rangeList a b c).head?, (Py.rangeList a b c).getLast? with
+    decide (c ≠ 0) && (match (Py.rangeList a b c).head?, (Py.rangeList a b c).getLast? with
       | some first, some last => decide (0 ≤ first ∧ first < n ∧ 0 ≤ last ∧ last < n)
       | _, _ => false)
   | _ => false
